@@ -116,7 +116,8 @@ pub fn judge(input: &Vec<u8>, st: &mut Stats) -> Verdict {
 }
 
 fn gen_case(t: &mut crate::engine::Tape) -> Vec<u8> {
-    match t.weighted(&[5, 8, 2, 1]) {
+    match t.weighted(&[15, 24, 6, 3, 1]) {
+        4 => gen::gen_other_notation(t),
         0 => {
             let mut x = gen::gen_valid_line(t, false);
             if t.coin() {
